@@ -2,6 +2,11 @@
 // element access.  Engines E4 (generated table of extents<I, E...> instantiations, gen/C19_gen.py) + E2 (complete
 // enumeration of every run-time shape of every instantiated type and of every multi-index of every shape).
 //
+// Case = (extents type, run-time shape, sub-check, stride variant); case string "<type> e=<e0,e1,..|-> v=<variant>",
+// e.g. "i8[2,d,3] e=2,4,3 v=7" (type names: index type, then static extents or d).
+//   quick: every dynamic extent takes every value 0..4, thorough 0..5 (shapes whose index space is not representable in
+//   the index type are skipped - library precondition).
+//
 // Oracles (written independently of the library, in `long long` arithmetic):
 //   row-major    offset = ((i0*e1 + i1)*e2 + i2)*e3 + i3            stride(r) = prod_{k>r} e_k
 //   column-major offset = i0 + e0*(i1 + e1*(i2 + e2*i3))            stride(r) = prod_{k<r} e_k
@@ -10,14 +15,17 @@
 //   every offset < required_span_size, offsets pairwise distinct, &m(i...) == data + offset (and the value stored there
 //   is read back); every view is backed by a heap block of exactly required_span_size elements (ASan red zones).
 //
-// Not part of the check on this tree (declared but never defined, or ill-formed when instantiated; each is probed at
-// compile time where possible so that it joins the check as soon as it becomes defined):
-//   layout_stride::mapping::required_span_size(), ::is_exhaustive(), its converting constructor and operator==;
+// Not part of the check on this tree (declared but never defined, or ill-formed when instantiated; the first two are
+// probed at compile time, so they join the check as soon as they become defined):
+//   layout_stride::mapping::required_span_size(), ::is_exhaustive(); its converting constructor and operator==;
 //   layout_left/right::mapping(layout_stride::mapping const&); layout_stride::mapping<extents<I>>(ext, strides) for rank 0
 //   (class template argument deduction of `array{}` fails); layout_transpose::mapping::is_(always_)contiguous();
-//   mdspan::operator[](i, j, ...) (needs C++23 multidimensional subscript); submdspan (commented out in the library).
+//   mdspan copy assignment (implicitly deleted: the class declares a move constructor); mdspan::operator[](i, j, ...)
+//   (needs C++23 multidimensional subscript); mdarray over layout_stride by size (needs required_span_size());
+//   submdspan (commented out in the library).
 //
-// The same source is compiled C19_NPARTS times with -DC19_PART=k: each TU instantiates a slice of the type table.
+// The same source is compiled once per part with -DC19_TABLE="C19_types_<part>.inc": each TU instantiates a slice of the
+// type table (part 0 also checks the deduction guides, -DC19_CTAD).
 #include <etl/linalg.hpp>
 #include <etl/mdarray.hpp>
 #include <etl/mdspan.hpp>
@@ -245,28 +253,29 @@ struct HeapBox {
     using const_pointer   = T const*;
     using iterator        = T*;
     using const_iterator  = T const*;
-    HeapBox() : _p{new T[0]}, _n{0} { }
-    explicit HeapBox(std::size_t n) : _p{new T[n]{}}, _n{n} { }
-    HeapBox(std::size_t n, T const& v) : _p{new T[n]}, _n{n}
+    // (noinline: one copy of each member per translation unit instead of one per mdarray instantiation)
+    [[gnu::noinline]] HeapBox() : _p{new T[0]}, _n{0} { }
+    [[gnu::noinline]] explicit HeapBox(std::size_t n) : _p{new T[n]{}}, _n{n} { }
+    [[gnu::noinline]] HeapBox(std::size_t n, T const& v) : _p{new T[n]}, _n{n}
     {
         for (std::size_t i = 0; i < n; ++i) { _p[i] = v; }
     }
-    HeapBox(HeapBox const& o) : _p{new T[o._n]}, _n{o._n}
+    [[gnu::noinline]] HeapBox(HeapBox const& o) : _p{new T[o._n]}, _n{o._n}
     {
         for (std::size_t i = 0; i < _n; ++i) { _p[i] = o._p[i]; }
     }
-    HeapBox(HeapBox&& o) noexcept : _p{o._p}, _n{o._n}
+    [[gnu::noinline]] HeapBox(HeapBox&& o) noexcept : _p{o._p}, _n{o._n}
     {
         o._p = nullptr;
         o._n = 0;
     }
-    auto operator=(HeapBox o) noexcept -> HeapBox&
+    [[gnu::noinline]] auto operator=(HeapBox o) noexcept -> HeapBox&
     {
         std::swap(_p, o._p);
         std::swap(_n, o._n);
         return *this;
     }
-    ~HeapBox() { delete[] _p; }
+    [[gnu::noinline]] ~HeapBox() { delete[] _p; }
     auto begin() -> T* { return _p; }
     auto end() -> T* { return _p + _n; }
     auto begin() const -> T const* { return _p; }
@@ -322,8 +331,8 @@ private:
 }
 
 enum class Formula { right, left, strided };
-constexpr int max_points = 640; // 5^4 multi-indices at most
-ll g_offs[4][max_points];
+constexpr int max_points = 1300; // 6^4 multi-indices at most
+ll g_offs[3][max_points];
 int g_vals[max_points];
 
 // offsets produced by the library for every multi-index (odometer order) vs. the closed form; range; uniqueness
@@ -596,11 +605,12 @@ void check_extents(Case const& k, Shape const& sh)
     char const* const sub = "extents";
     vf::Flight<Case> fl(sub, k);
     ll g[4] = {0, 0, 0, 0};
-#define EXT_IS(how, obj)                                                                                               \
+#define EXT_IS_SHAPE(shape, how, obj)                                                                                  \
     do {                                                                                                               \
         get_ext(obj, g);                                                                                               \
-        REQUIRE_OK(ext_ok(sub, k, sh, g, how));                                                                        \
+        REQUIRE_OK(ext_ok(sub, k, shape, g, how));                                                                     \
     } while (0)
+#define EXT_IS(how, obj) EXT_IS_SHAPE(sh, how, obj)
 
     {
         std::size_t nd = 0;
@@ -609,6 +619,14 @@ void check_extents(Case const& k, Shape const& sh)
             CHECK(sub, k, E::static_extent(r) == D || static_cast<ll>(E::static_extent(r)) == sh.e[r], "static_extent(%zu) = %zu", r, E::static_extent(r));
         }
         CHECK(sub, k, nd == RD && R == static_cast<std::size_t>(sh.rank), "rank()/rank_dynamic() = %zu/%zu, pattern has %d/%zu", R, RD, sh.rank, nd);
+    }
+    {
+        // default construction: static extents as declared, dynamic extents 0
+        E const z{};
+        Shape zs = sh;
+        for (std::size_t r = 0; r < R; ++r) { zs.e[r] = E::static_extent(r) == D ? 0 : sh.e[r]; }
+        get_ext(z, g);
+        REQUIRE_OK(ext_ok(sub, k, zs, g, "extents()"));
     }
     // (a) dynamic-only arguments, (b) rank-many arguments: variadic (int and IndexType), etl::array, etl::span
     E const a1 = make_dyn<E, int>(sh);
@@ -766,6 +784,22 @@ void check_stride(Case const& k, Shape const& sh, StrideInfo const& si)
     ll g[4]      = {0, 0, 0, 0};
     E const e    = make_all<E, int>(sh);
     ll const rss = rss_strided(sh, si.s);
+    {
+        // default construction [mdspan.layout.stride.cons]: extents_type() and the strides of layout_right::mapping<extents_type>()
+        M const dm;
+        Shape zs = sh;
+        for (std::size_t r = 0; r < R; ++r) { zs.e[r] = E::static_extent(r) == D ? 0 : sh.e[r]; }
+        ll zst[4] = {0, 0, 0, 0};
+        right_strides(zs, zst);
+        EXT_IS_SHAPE(zs, "default-constructed layout_stride mapping.extents()", dm.extents());
+        if constexpr (R > 0) {
+            for (std::size_t r = 0; r < R; ++r) { CHECK(sub, k, static_cast<ll>(dm.stride(r)) == zst[r], "default-constructed layout_stride mapping: stride(%zu) = %lld, expected the layout_right stride %lld", r, static_cast<ll>(dm.stride(r)), zst[r]); }
+            if (k.var == 0) {
+                collect_offsets<I, R>(dm, zs, g_offs[0]);
+                REQUIRE_OK(offsets_ok(sub, k, zs, g_offs[0], prod(zs), Formula::right, nullptr, "default-constructed layout_stride mapping"));
+            }
+        }
+    }
     if constexpr (R == 0) {
         // only the default constructor is usable for rank 0 on this tree
         M const m;
@@ -858,6 +892,11 @@ void check_mdspan_lr(Case const& k, Shape const& sh)
         MD const c7(c6);
         VIEW_FACTS("copy of an mdspan", c7);
     }
+    if constexpr (E::rank_dynamic() > 0) {
+        MD const dm;
+        bool const ok = dm.data_handle() == nullptr && dm.size() == 0 && dm.empty();
+        CHECK(sub, k, ok, "default-constructed mdspan: size() = %lld", static_cast<ll>(dm.size()));
+    }
     // converting constructor: element const, dextents<J>
     {
         using J  = typename partner<I>::type;
@@ -948,6 +987,10 @@ void check_mdarray(Case const& k, Shape const& sh)
         REQUIRE_OK(view_ok(sub, k, sh, st, nacc, "mdarray::to_mdspan()"));
         etl::mdspan<int, E, L> const conv = a;
         REQUIRE_OK(facts_ok(sub, k, sh, st, R > 0, collect_facts(conv, conv.data_handle(), base, R > 0), "mdarray converted to mdspan"));
+    }
+    if constexpr (E::rank_dynamic() > 0) {
+        A const da;
+        CHECK(sub, k, da.size() == 0 && da.empty() && da.container_size() == 0, "default-constructed mdarray: size() = %lld, container_size() = %zu", static_cast<ll>(da.size()), da.container_size());
     }
     // other constructors (mdarray(extents...) delegates to mdarray(mapping...), so the mapping forms are covered too)
     {
@@ -1045,6 +1088,68 @@ void check_transpose(Case const& k, Shape const& sh)
     vf::eval(sub);
 }
 #undef EXT_IS
+#undef EXT_IS_SHAPE
+
+// ------------------------------------------------------------------------------------------------ deduction guides
+#if defined(C19_CTAD)
+template <std::size_t R>
+void check_ctad_rank()
+{
+    char const* const sub = "ctad";
+    static char const* const names[5] = {"ctad0", "ctad1", "ctad2", "ctad3", "ctad4"};
+    Shape sh{static_cast<int>(R), {3, 2, 4, 1}};
+    Case const k{names[R], static_cast<int>(R), {3, 2, 4, 1}, 0};
+    if (!want(sub, k)) { return; }
+    vf::Flight<Case> fl(sub, k);
+    ll g[4]    = {0, 0, 0, 0};
+    ll const P = prod(sh);
+    ll st[4]   = {0, 0, 0, 0};
+    right_strides(sh, st);
+    auto blk  = make_block(P);
+    int* base = blk.get();
+    auto const e = make_all_impl<etl::dextents<std::size_t, R>, int>(sh, std::make_index_sequence<R>{});
+    if constexpr (R > 0) {
+        // extents(ints...) -> extents<size_t, dynamic...>;  mdspan(ptr, ints...) -> mdspan<T, dextents<size_t, R>>
+        auto const de = [&]<std::size_t... Is>(std::index_sequence<Is...>) { return etl::extents(static_cast<int>(sh.e[Is])...); }(std::make_index_sequence<R>{});
+        static_assert(std::is_same_v<std::remove_cv_t<decltype(de)>, etl::dextents<std::size_t, R>>);
+        get_ext(de, g);
+        REQUIRE_OK(ext_ok(sub, k, sh, g, "extents(ints...) [deduced]"));
+        auto const m1 = [&]<std::size_t... Is>(std::index_sequence<Is...>) { return etl::mdspan(base, static_cast<int>(sh.e[Is])...); }(std::make_index_sequence<R>{});
+        static_assert(std::is_same_v<std::remove_cv_t<decltype(m1)>, etl::mdspan<int, etl::dextents<std::size_t, R>>>);
+        REQUIRE_OK(facts_ok(sub, k, sh, st, true, collect_facts(m1, m1.data_handle(), base, true), "mdspan(ptr, ints...) [deduced]"));
+        int const n1 = collect_view<std::size_t, R>(m1, base, sh, P);
+        REQUIRE_OK(view_ok(sub, k, sh, st, n1, "mdspan(ptr, ints...) [deduced]"));
+    }
+    auto const m2 = etl::mdspan(base, e);
+    static_assert(std::is_same_v<std::remove_cv_t<decltype(m2)>, etl::mdspan<int, etl::dextents<std::size_t, R>>>);
+    REQUIRE_OK(facts_ok(sub, k, sh, st, R > 0, collect_facts(m2, m2.data_handle(), base, R > 0), "mdspan(ptr, extents) [deduced]"));
+    auto const m3 = etl::mdspan(base, etl::layout_left::mapping<etl::dextents<std::size_t, R>>(e));
+    static_assert(std::is_same_v<std::remove_cv_t<decltype(m3)>, etl::mdspan<int, etl::dextents<std::size_t, R>, etl::layout_left>>);
+    ll lst[4] = {0, 0, 0, 0};
+    left_strides(sh, lst);
+    REQUIRE_OK(facts_ok(sub, k, sh, lst, R > 0, collect_facts(m3, m3.data_handle(), base, R > 0), "mdspan(ptr, layout_left mapping) [deduced]"));
+    int const n3 = collect_view<std::size_t, R>(m3, base, sh, P);
+    REQUIRE_OK(view_ok(sub, k, sh, lst, n3, "mdspan(ptr, layout_left mapping) [deduced]"));
+    if constexpr (R == 1) {
+        auto hold = std::make_unique<std::array<int[3], 1>>();
+        for (int i = 0; i < 3; ++i) { (*hold)[0][i] = 1000 + i; }
+        auto const m4 = etl::mdspan((*hold)[0]); // C array -> extents<size_t, 3>
+        static_assert(std::is_same_v<std::remove_cv_t<decltype(m4)>, etl::mdspan<int, etl::extents<std::size_t, 3>>>);
+        bool const ok = m4.size() == 3 && &m4(2) == &(*hold)[0][2] && m4.extent(0) == 3;
+        CHECK(sub, k, ok, "mdspan(int(&)[3]) [deduced]: size() = %zu", static_cast<std::size_t>(m4.size()));
+    }
+    vf::eval(sub);
+    vf::nontrivial_count();
+}
+void check_ctad()
+{
+    check_ctad_rank<0>();
+    check_ctad_rank<1>();
+    check_ctad_rank<2>();
+    check_ctad_rank<3>();
+    check_ctad_rank<4>();
+}
+#endif
 
 // ------------------------------------------------------------------------------------------------ per-type table + driver
 struct TypeOps {
@@ -1060,7 +1165,9 @@ struct TypeOps {
     void (*stride)(Case const&, Shape const&, StrideInfo const&);
     void (*mdstride)(Case const&, Shape const&, StrideInfo const&);
 };
-template <typename E>
+// Full = false ("light" types, C19_TYPE_L): extents + the three mappings + mdspan over layout_stride + transpose; the
+// mdspan<left/right> and mdarray suites (70 % of the compile time of a type) are instantiated for the full types only.
+template <typename E, bool Full>
 auto ops_for(char const* name) -> TypeOps
 {
     TypeOps t{};
@@ -1071,10 +1178,12 @@ auto ops_for(char const* name) -> TypeOps
     t.extents  = &check_extents<E>;
     t.lr[0]    = &check_lr<E, etl::layout_left>;
     t.lr[1]    = &check_lr<E, etl::layout_right>;
-    t.md[0]    = &check_mdspan_lr<E, etl::layout_left>;
-    t.md[1]    = &check_mdspan_lr<E, etl::layout_right>;
-    t.arr[0]   = &check_mdarray<E, etl::layout_left>;
-    t.arr[1]   = &check_mdarray<E, etl::layout_right>;
+    if constexpr (Full) {
+        t.md[0]  = &check_mdspan_lr<E, etl::layout_left>;
+        t.md[1]  = &check_mdspan_lr<E, etl::layout_right>;
+        t.arr[0] = &check_mdarray<E, etl::layout_left>;
+        t.arr[1] = &check_mdarray<E, etl::layout_right>;
+    }
     t.stride   = &check_stride<E>;
     t.mdstride = &check_mdspan_stride<E>;
     if constexpr (E::rank() == 2) {
@@ -1123,6 +1232,7 @@ void run_type(TypeOps const& t)
         vf::label("shape.has_zero_extent", zero);
         vf::label("shape.mixed_static_dynamic(rank>=2)", mixed);
         vf::label("shape.rank0", R == 0);
+        vf::label("type.full_suite(mdspan+mdarray)", t.md[0] != nullptr);
         auto nt = [&](bool extra) {
             if (zero || mixed || extra) { vf::nontrivial_count(); }
         };
@@ -1135,11 +1245,11 @@ void run_type(TypeOps const& t)
                 t.lr[l](k, sh);
                 nt(false);
             }
-            if (want(sub_md[l], k)) {
+            if (t.md[l] != nullptr && want(sub_md[l], k)) {
                 t.md[l](k, sh);
                 nt(false);
             }
-            if (want(sub_arr[l], k)) {
+            if (t.arr[l] != nullptr && want(sub_arr[l], k)) {
                 t.arr[l](k, sh);
                 nt(false);
             }
@@ -1184,7 +1294,8 @@ void run_type(TypeOps const& t)
     }
 }
 
-#define C19_TYPE(name, I, ...) ops_for<etl::extents<I __VA_OPT__(, ) __VA_ARGS__>>(name),
+#define C19_TYPE(name, I, ...)   ops_for<etl::extents<I __VA_OPT__(, ) __VA_ARGS__>, true>(name),
+#define C19_TYPE_L(name, I, ...) ops_for<etl::extents<I __VA_OPT__(, ) __VA_ARGS__>, false>(name),
 TypeOps const g_table[] = {
 #include C19_TABLE
 };
@@ -1193,13 +1304,16 @@ TypeOps const g_table[] = {
 
 void vf_run(vf::Ctx& c)
 {
-    g_ctl.maxext    = c.thorough() ? 4 : 3;
+    g_ctl.maxext    = c.thorough() ? 5 : 4; // every dynamic extent takes every value 0..maxext
     std::uint64_t i = 0;
     for (auto const& t : g_table) {
         if (!c.mine(i++)) { continue; }
         run_type(t);
         vf::count("types_instantiated");
     }
+#if defined(C19_CTAD)
+    if (c.shard == 0) { check_ctad(); }
+#endif
 }
 
 std::string vf_replay(std::string const& sub, std::string const& cs)
@@ -1218,8 +1332,13 @@ std::string vf_replay(std::string const& sub, std::string const& cs)
         std::string tok;
         while (std::getline(ss, tok, ',') && g_ctl.frank < 4) { g_ctl.fe[g_ctl.frank++] = std::atoi(tok.c_str()); }
     }
-    g_ctl.maxext = 4;
-    for (int r = 0; r < g_ctl.frank; ++r) { g_ctl.maxext = std::max(g_ctl.maxext, g_ctl.fe[r]); }
+    g_ctl.maxext = 5;
+#if defined(C19_CTAD)
+    if (sub == "ctad") {
+        check_ctad();
+        return g_ctl.matched ? "" : "case not reached: " + cs;
+    }
+#endif
     for (auto const& t : g_table) {
         if (std::string(t.name) == type) {
             run_type(t);
